@@ -27,8 +27,11 @@ def make_copy(patch=None):
     return d, ""
 
 
+SEED_DIR = "seeded"
+
+
 def run_seed(seed, props, tier):
-    sd = os.path.join(VERIF, "seeded", seed)
+    sd = os.path.join(VERIF, SEED_DIR, seed)
     d, err = make_copy(os.path.join(sd, "patch.diff"))
     if d is None:
         return seed, {"_error": err}
@@ -58,10 +61,13 @@ def main():
             tier = args[i + 1]; i += 2
         elif args[i] == "-v":
             verbose = True; i += 1
+        elif args[i] == "--dir":
+            global SEED_DIR
+            SEED_DIR = args[i + 1]; i += 2
         else:
             seeds.append(args[i]); i += 1
     if not seeds:
-        seeds = sorted(os.listdir(os.path.join(VERIF, "seeded")))
+        seeds = sorted(os.listdir(os.path.join(VERIF, SEED_DIR)))
     caught = 0
     with ThreadPoolExecutor(max_workers=14) as ex:
         results = list(ex.map(lambda s: run_seed(s, props, tier), seeds))
